@@ -103,7 +103,7 @@ def build(stream, p):
 
     def run():
         try:
-            v, acc = dsw.connect_coding_graph(observed_length=k, vertices=arr, threshold=t)
+            v, acc = gen.api("connect_coding_graph", observed_length=k, vertices=arr, threshold=t)
             desc = [int(x) for x in v] if t == 1 else [int(i) for i in np.where(np.asarray(v) != 0)[0]]
             main = (desc, acc)
         except ValueError:
@@ -112,7 +112,7 @@ def build(stream, p):
         second = None
         if any(mask):
             valid = dsw.connect_valid_graph(observed_length=k, vertices=np.array(mask, dtype=int))
-            second = dsw.latter_map_to_accessor(dsw.accessor_to_latter_map(valid), observed_length=k, threshold=t)
+            second = gen.api("latter_map_to_accessor", latter_map=dsw.accessor_to_latter_map(valid), observed_length=k, threshold=t)
         # a smaller mask
         try:
             _, acc2 = dsw.connect_coding_graph(observed_length=k, vertices=np.array(sub, dtype=int), threshold=t)
